@@ -53,7 +53,7 @@ overhangs (`molecule`), letter for letter. -/
 theorem ligate_sound (pool : List Fragment) {c : Str} (hc : c ∈ emitted pool) :
     ∃ f suf, f ∈ pool ∧ Ring pool (⟨f, false⟩ :: suf) ∧ c = molecule (⟨f, false⟩ :: suf) := by
   obtain ⟨f, hf, hc⟩ := mem_emitted.1 hc
-  obtain ⟨ext, hr, he⟩ := sound_aux pool _ f [f] ⟨f, false⟩ [] (Chain.start hf) c hc
+  obtain ⟨ext, hr, he, _, _⟩ := sound_aux pool _ f [f] ⟨f, false⟩ [] (Chain.start hf) c hc
   exact ⟨f, ext, hf, by simpa using hr, by simpa using he⟩
 
 /-- the same for what `CircularLigate` returns, whatever the arrival order -/
